@@ -193,3 +193,114 @@ pub fn replay_trunc(args: &Args) {
         }
     }
 }
+
+/// C19: replay pairs of profiles and an exponent into Strategies::distance
+pub fn replay_dist(args: &Args) {
+    let cases = util::read_ndjson(args.get("exp"));
+    let mut out = Out::create(args.get("out"));
+    for (n, row) in cases.iter().enumerate() {
+        let case = &row["exp"];
+        let s = weights(&case["s"]);
+        let t = weights(&case["t"]);
+        let p = util::rat(&case["p"]);
+        let panics = case["panics"].as_bool().unwrap();
+        let nacts: [Vec<usize>; 2] = [
+            s[0].iter().map(|x| x.len()).collect(),
+            s[1].iter().map(|x| x.len()).collect(),
+        ];
+        // a player without a multi-action infoset still needs to be in the game: give it a single
+        let singles = [0, if nacts[1].is_empty() { 1 } else { 0 }];
+        let tree = strat_game([&nacts[0], &nacts[1]], singles);
+        let (sc, tc) = (s.clone(), t.clone());
+        let res = util::catch(move || {
+            let game = tree::build(&tree).expect("carrier game");
+            let one = game.from_named(named_from(&sc, singles)).expect("grid profile");
+            let two = game.from_named(named_from(&tc, singles)).expect("grid profile");
+            let fwd = util::catch(std::panic::AssertUnwindSafe(|| one.distance(&two, p)));
+            let bwd = util::catch(std::panic::AssertUnwindSafe(|| two.distance(&one, p)));
+            let slf = util::catch(std::panic::AssertUnwindSafe(|| one.distance(&one, p)));
+            (fwd, bwd, slf)
+        });
+        let mut bad = Vec::new();
+        let mut dev = false;
+        match res {
+            Err(msg) => bad.push(json!({"what": "panic outside distance", "observed": msg})),
+            Ok((fwd, bwd, slf)) => {
+                if panics {
+                    if fwd.is_ok() || bwd.is_ok() {
+                        bad.push(json!({"class": "panic", "what": "no panic for non-positive p", "p": p}));
+                    }
+                } else {
+                    match (fwd, bwd, slf) {
+                        (Ok(d12), Ok(d21), Ok(d11)) => {
+                            for pl in 0..2 {
+                                let (a, b) = (d12[pl], d21[pl]);
+                                let empty = nacts[pl].is_empty();
+                                let class = |base: &str| -> String {
+                                    format!("{}{}{}", base, if empty { ":no-infoset" } else { "" }, if p < 1.0 { ":p<1" } else { "" })
+                                };
+                                if a.is_nan() || b.is_nan() {
+                                    bad.push(json!({"class": class("nan"), "what": "distance is NaN", "player": pl + 1}));
+                                    continue;
+                                }
+                                if !(0.0..=1.0 + 1e-12).contains(&a) {
+                                    // classify: is it exactly the documented formula (half the sum of
+                                    // |x-y|^p, averaged over infosets) leaving [0,1] because p < 1?
+                                    let mut formula = 0.0;
+                                    for (ws, wt) in s[pl].iter().zip(t[pl].iter()) {
+                                        let (ts, tt): (i64, i64) = (ws.iter().sum(), wt.iter().sum());
+                                        for (x, y) in ws.iter().zip(wt.iter()) {
+                                            formula += (*x as f64 / ts as f64 - *y as f64 / tt as f64).abs().powf(p);
+                                        }
+                                    }
+                                    formula /= 2.0 * nacts[pl].len().max(1) as f64;
+                                    let base = if p < 1.0 && util::close(a, formula, 1e-12) { "range:documented-formula" } else { "range" };
+                                    bad.push(json!({"class": class(base), "what": "distance outside [0,1]", "player": pl + 1, "observed": a}));
+                                }
+                                if a.to_bits() != b.to_bits() && !util::close(a, b, 1e-15) {
+                                    bad.push(json!({"class": class("symmetry"), "what": "distance not symmetric", "player": pl + 1, "observed": [a, b]}));
+                                }
+                                let equal = case["equal"][pl].as_bool().unwrap();
+                                if equal && a != 0.0 {
+                                    bad.push(json!({"class": class("zero"), "what": "distance of coinciding strategies not zero", "player": pl + 1, "observed": a}));
+                                }
+                                if !equal && !(a > 0.0) {
+                                    bad.push(json!({"class": class("positive"), "what": "distance of differing strategies not positive", "player": pl + 1, "observed": a}));
+                                }
+                                if d11[pl] != 0.0 && !d11[pl].is_nan() {
+                                    bad.push(json!({"class": class("self"), "what": "distance to itself not zero", "player": pl + 1, "observed": d11[pl]}));
+                                }
+                                let r = &case["ref"][pl];
+                                if !util::is_poison(r) && !util::close(a, util::rat(r), 1e-12) {
+                                    dev = true;
+                                }
+                            }
+                        }
+                        _ => bad.push(json!({"class": "panic", "what": "panic for positive p on one game", "p": p})),
+                    }
+                }
+            }
+        }
+        let nontrivial = !panics && !(case["equal"][0].as_bool().unwrap() && case["equal"][1].as_bool().unwrap());
+        if !bad.is_empty() {
+            out.line(&json!({"id": n, "status": "violation", "mismatch": bad}));
+        } else if dev {
+            out.line(&json!({"id": n, "status": "deviation"}));
+        } else {
+            out.line(&json!({"id": n, "status": "ok", "nontrivial": nontrivial}));
+        }
+    }
+    // the other documented panic: profiles of different games
+    let tree = strat_game([&[2], &[2]], [0, 0]);
+    let res = util::catch(move || {
+        let g1 = tree::build(&tree).unwrap();
+        let g2 = tree::build(&tree).unwrap();
+        let w = [vec![vec![1, 1]], vec![vec![1, 1]]];
+        let a = g1.from_named(named_from(&w, [0, 0])).unwrap();
+        let b = g2.from_named(named_from(&w, [0, 0])).unwrap();
+        util::catch(std::panic::AssertUnwindSafe(|| a.distance(&b, 1.0))).is_err()
+    });
+    if res != Ok(true) {
+        out.line(&json!({"id": cases.len(), "status": "violation", "mismatch": [{"class": "panic", "what": "no panic for profiles of different games"}]}));
+    }
+}
